@@ -22,7 +22,7 @@ def _add(a, b):
     return a + b
 
 
-KINDS = ['translated', 'leftscal', 'rightscal', 'rightscal_neg', 'rightscal0', 'quadpert',
+KINDS = ['translated', 'leftscal', 'leftscal_half', 'rightscal', 'rightscal_neg', 'rightscal0', 'quadpert',
          'quadpert_a0', 'quadpert_nou', 'scalarsum', 'bregman', 'rightvec']
 
 
@@ -38,8 +38,8 @@ def derive(kind, f, ref, cref, info):
         r = lambda z: ref(np.asarray(z) - y)
         c = None if cref is None else (lambda v: _add(cref(v), info.inner(v, y)))
         return dict(func=g, ref=r, cref=c, arg=lambda z: np.asarray(z) - y)
-    if kind == 'leftscal':
-        a = 2.0
+    if kind in ('leftscal', 'leftscal_half'):
+        a = 2.0 if kind == 'leftscal' else 0.5
         g = a * f
         r = lambda z: a * ref(z)
         c = None if cref is None else (lambda v: a * cref(np.asarray(v) / a))
